@@ -64,6 +64,10 @@ class CompiledTwin(Oracle):
     def on_hparam(self, run: SingleRun, ei: int, ev: dict) -> None:
         self.topt.param_groups[ev["group"]][ev["key"]] = ev["value"]
 
+    def on_poke(self, run: SingleRun, ei: int, ev: dict) -> None:
+        with torch.no_grad():
+            self.tparams[ev["param"]].mul_(ev["scale"])
+
     def pre_step(self, run: SingleRun, ei: int, ev: dict) -> None:
         for p, tp in zip(run.params, self.tparams):
             tp.grad = None if p.grad is None else p.grad.detach().clone()
@@ -184,7 +188,7 @@ def generate(rng: random.Random, tier: str) -> dict:
     n_events = rng.choice([3, 4, 6, 8, 10] + ([16] if tier == "thorough" else []))
     style = gen.gen_presence_style(rng, n_params)
     style["style"] = rng.choice(["all", "sticky", "adversarial", "random"])
-    events = gen.gen_history(rng, params, groups, config, n_events, hparam_rate=0.08, style=style)
+    events = gen.gen_history(rng, params, groups, config, n_events, hparam_rate=0.08, style=style, poke_rate=0.04)
     for ev in events:
         if ev["op"] == "step":
             for g in ev["g"]:
